@@ -1039,6 +1039,12 @@ func (e *Engine) evalCall(st *State, env *cenv, x *CExpr) (Val, error) {
 			}
 		}
 		return Val{K: KAddr, T: "(iaddr " + v.T + ")", Ty: t}, nil
+	case "unboxstr": // string payload of an interface value that holds a string
+		v, err := e.evalC(st, env, args[0])
+		if err != nil {
+			return Val{}, err
+		}
+		return Val{K: KStr, T: "(istr " + v.T + ")", Ty: types.Typ[types.String]}, nil
 	}
 	if g, ok := e.ghosts[name]; ok {
 		var av []Val
